@@ -7531,3 +7531,65 @@ def qm2(m, run, rule='QM2.quad-mesh-on-labelled-grid'):
             bad.append(('%d x %d grid' % (su, sv), why))
     run.ob(rule, '%s :: %d grids' % (fi.key, cnt), not bad, 'one quad per cell with the four corners of that cell in cyclic order; vertices numbered like the points' if not bad else
            '%s: %s   [%d of %d]' % (bad[0][0], bad[0][1], len(bad), cnt), 'geomdl/_tessellate.py:%d in %s' % (fi.node.lineno, fi.key))
+
+
+# ====================================================================================== C15: the facet normal of a triangle
+def fn2(m, run, rule='FN2.facet-normal-is-the-edge-cross-product'):
+    """FN2: linalg.triangle_normal interpreted on a triangle whose nine vertex coordinates are symbolic atoms (exact arithmetic, both outcomes
+    of every comparison the atoms leave open): on every path the result is a positive multiple of (v1 - v0) x (v2 - v1) -- the
+    un-normalised cross product or that vector divided by its length -- so every non-degenerate facet, however small, gets the normal of
+    its own plane and orientation"""
+    from .skel import Sym
+    from .poly import Poly
+    fi = m.func('linalg.triangle_normal')
+    V = [[Poly.atom('%s%d' % (n_, i)) for i in range(3)] for n_ in 'abc']
+    e1 = [V[1][i] - V[0][i] for i in range(3)]
+    e2 = [V[2][i] - V[1][i] for i in range(3)]
+    cr = [e1[1] * e2[2] - e1[2] * e2[1], e1[2] * e2[0] - e1[0] * e2[2], e1[0] * e2[1] - e1[1] * e2[0]]
+
+    def make_sk():
+        sk = SK(m, {})
+        sk.exact = True
+        sk.text = True          # a rounding to a number of decimals written as float(format(x)) hands back x
+        return sk
+
+    def scenario(sk):
+        tri = Bag('Triangle', vertices=[Bag('Vertex', data=[Sym(x) for x in v], id=k) for k, v in enumerate(V)], id=0)
+        try:
+            out = sk.call(fi, [tri], {})
+        except Raised as ex:
+            return 'raises %s' % ex.kind
+        if not isinstance(out, (list, tuple)) or len(out) != 3:
+            return 'returns %s, not a 3-D vector' % repr(out)[:100]
+        r = [_as_sym(x) for x in out]
+        if any(x is None for x in r):
+            return 'returns %s' % repr(out)[:120]
+        if all(x.is_zero() for x in r):
+            return 'returns the constant vector %s for a facet with arbitrary vertices: a small but non-degenerate facet has a non-zero normal' % repr([getattr(x, 'val', x) for x in out])
+        c = [Sym(x) for x in cr]
+        # parallel: r_i c_j == r_j c_i
+        for i in range(3):
+            for j in range(i + 1, 3):
+                if not Sym(r[i].p * cr[j], r[i].q).same(Sym(r[j].p * cr[i], r[j].q)):
+                    return 'returns %s, which is not parallel to (v1 - v0) x (v2 - v1)' % repr(out)[:160]
+        # orientation: r = k c with k a positive constant, or 1 / sqrt(.) (a length)
+        k = None
+        for i in range(3):
+            # r_i.p / r_i.q = k * cr_i  ->  k = r_i.p / (r_i.q cr_i)
+            d = r[i].p.divexact(cr[i]) if r[i].p.t else None
+            if d is not None:
+                k = (d, r[i].q)
+                break
+        if k is None:
+            return 'returns %s: its factor against the cross product could not be isolated' % repr(out)[:140]
+        num, den = k
+        pos_num = num.is_const() and num.const_value() > 0
+        neg_num = num.is_const() and num.const_value() < 0
+        den_ok = den is None or (len(den.t) == 1 and all(a.startswith('sqrt(') for mono in den.t for a, _ in mono) and list(den.t.values())[0] > 0)
+        if neg_num and den_ok:
+            return 'returns the cross product reversed (factor %s): the facet orientation is flipped' % num
+        if not (pos_num and den_ok):
+            return 'returns the cross product times %s%s, which is not known to be positive' % (num, '' if den is None else ' / (%s)' % den)
+        return None
+    why = forked(make_sk, scenario, fi.key, max_paths=64)
+    run.ob(rule, fi.key, why is None, 'a positive multiple of (v1 - v0) x (v2 - v1) on every path' if why is None else why, 'geomdl/linalg.py:%d in %s' % (fi.node.lineno, fi.key))
